@@ -407,7 +407,7 @@ INT_TIMES = ["hhmmss", "hhmm", "hh", "hh:mm:ss", "hh:mm"]
 
 
 @st.composite
-def st_arg(draw, cm, allow_decimal=False, allow_reduced=True):
+def st_arg(draw, cm, allow_decimal=False, allow_reduced=True, hour24=False):
     """A documented date-time argument + its values."""
     notation = draw(st.sampled_from(["extended", "extended", "basic"]))
     types = ["complete", "complete", "complete"] + (
@@ -458,6 +458,13 @@ def st_arg(draw, cm, allow_decimal=False, allow_reduced=True):
             tv["minute"] = draw(st.integers(0, 59))
         if "ss" in tform["toks"]:
             tv["second"] = draw(st.integers(0, 59))
+        if hour24 and not any(t in (",f", ".f") for t in tform["toks"]):
+            # the end of the day written as 24:00
+            tv = {"hour": 24}
+            if "mm" in tform["toks"]:
+                tv["minute"] = 0
+            if "ss" in tform["toks"]:
+                tv["second"] = 0
         if any(t in (",f", ".f") for t in tform["toks"]):
             tv["frac"] = "%0*d" % (draw(st.integers(1, 6)),
                                    draw(st.integers(0, 9)))
@@ -682,10 +689,18 @@ def st_diff(draw):
     # one case in four may spell decimal fractions (dyadic) of the smallest
     # time unit: the difference is then not a whole number of seconds
     dec = draw(st.integers(0, 3)) == 0
-    a1 = draw(st_arg(cm, allow_decimal=dec, allow_reduced=False))
-    a2 = draw(st_arg(cm, allow_decimal=dec, allow_reduced=False))
+    h24 = draw(st.sampled_from([0, 0, 0, 0, 1, 2]))
+    a1 = draw(st_arg(cm, allow_decimal=dec, allow_reduced=False,
+                     hour24=h24 == 1))
+    a2 = draw(st_arg(cm, allow_decimal=dec, allow_reduced=False,
+                     hour24=h24 == 2))
     o1 = draw(st_offsets(False, maxn=2))
     o2 = draw(st_offsets(False, maxn=2))
+    if h24:
+        # month / year steps from a point written as 24:00 are not defined by
+        # the statement (clamping on the day as written or on the next day)
+        o1 = [o for o in o1 if RC.is_exact(o[1])]
+        o2 = [o for o in o2 if RC.is_exact(o[1])]
     if dec:
         # exact offsets only: the reference adds the spelled fraction to the
         # whole-second instants, which is valid when every step is a
